@@ -67,7 +67,10 @@ def kwargs_for(d, nus, gammas, hs, mig, theta0, frozen, nomut=None, funcs=False)
     kw['theta0'] = theta0
     if nomut is not None and d == 2:
         kw['nomut1'], kw['nomut2'] = bool(nomut[0]), bool(nomut[1])
-    if funcs:
+    if funcs == 'varying':
+        for k in range(d):
+            kw['nu%d' % (k + 1)] = nus[k]          # callables
+    elif funcs:
         kw['nu1'] = (lambda t, v=nus[0]: v)
         kw['theta0'] = (lambda t, v=theta0: v)
     return kw
@@ -78,15 +81,25 @@ def replay_steps(ic, phi, xx, d, T, tf, nus, gammas, hs, mig, theta0, frozen, no
     phi = phi.copy()
     w = tw(xx)
     G = len(xx)
-    dts = []
-    for k in range(d):
-        ms = [mig.get((k, j), 0.0) for j in range(d) if j != k]
-        dts.append(dt_rule(tf, nus[k], ms, gammas[k], hs[k]))
-    dt = min(dts)
+    nu_funcs = nus if callable(nus[0]) else None
+
+    def step_size(sizes):
+        dts = []
+        for k in range(d):
+            ms = [mig.get((k, j), 0.0) for j in range(d) if j != k]
+            dts.append(dt_rule(tf, sizes[k], ms, gammas[k], hs[k]))
+        return min(dts)
+    if nu_funcs is None:
+        dt = step_size(nus)
     t = 0.0
     influx = outflow = 0.0
     nsteps = 0
     while t < T:
+        if nu_funcs is not None:
+            # documented loop of the time-dependent drivers: the step is sized from the parameters at the start of the step,
+            # the implicit sweep uses the parameters at its end
+            dt = step_size([f(t) for f in nu_funcs])
+            nus = [f(t + min(dt, T - t)) for f in nu_funcs]
         this_dt = min(dt, T - t)
         for k in range(d):
             if frozen[k] or (nomut is not None and nomut[k]):
@@ -156,7 +169,11 @@ def case_ledger(col, p):
         drv = driver(d)
         n = 0
         for name, phi0 in inputs:
-            for funcs in (False, True):
+            for funcs in ((False, True, 'varying') if p.get('varying') else (False, True)):
+                nus_c = nus
+                if funcs == 'varying':
+                    # sizes that really change during the integration (each population shrinks to 1/3..1/6 of its size)
+                    nus = [(lambda t, v=nus_c[k], q=k: v / (1.0 + (2.0 + q) * t / T)) for k in range(d)]
                 kw = kwargs_for(d, nus, gammas, hs, mig, theta0, frozen, nomut, funcs)
                 info = dict(p, input=name, time_dependent=funcs)
                 try:
@@ -168,6 +185,7 @@ def case_ledger(col, p):
                     out = drv(as_layout(phi0), xx_in, T, **kw)
                 except Exception as e:
                     col.violation('C04:driver%d:raises' % d, info, '%s: %s' % (type(e).__name__, e))
+                    nus = nus_c
                     continue
                 col.tick(transitions=1)
                 n += 1
@@ -175,6 +193,7 @@ def case_ledger(col, p):
                 scale = max(1.0, float(np.abs(out).max()), float(np.abs(phi0).max()))
                 if not np.isfinite(out).all():
                     col.violation('C04:driver%d:nonfinite' % d, info, '')
+                    nus = nus_c
                     continue
                 # (1) frozen marginals at interior frequencies
                 for k in range(d):
@@ -190,7 +209,8 @@ def case_ledger(col, p):
                         col.observe('frozen_marginal', err / (1e-11 * max(msc, 1e-12)))
                 # (3)+(4) replay through the real kernels and ledger
                 rep, influx, outflow, ns_ = replay_steps(ic, phi0, xx, d, T, tf, nus, gammas, hs, mig, theta0, frozen, nomut, delj)
-                if ns_ != nsteps_target:
+                nus = nus_c
+                if ns_ != nsteps_target and funcs != 'varying':
                     col.violation('harness:C04:step_count', info, {'got': ns_, 'want': nsteps_target})
                 err = float(np.abs(out - rep).max())
                 if not err <= 1e-11 * scale:
@@ -369,6 +389,11 @@ def run(ctx):
                 cases.append({'kind': 'ledger', 'd': d, 'G': G, 'grid': 'D', 'seed': seed, 'nus': nuB, 'gammas': sel[1][0], 'hs': sel[1][1],
                               'theta0': 1.5, 'tf': 1e-3, 'steps': 3, 'frozen': frozen, 'nomut': None, 'mig': mig, 'units': (0, chunk),
                               'delj': delj, 'layout': layout})
+            if not all(frozen):
+                # sizes that change in time: the drivers re-size the step from the current sizes at every step
+                cases.append({'kind': 'ledger', 'd': d, 'G': G, 'grid': 'D', 'seed': seed, 'nus': nuA, 'gammas': sel[1][0], 'hs': sel[1][1],
+                              'theta0': 1.5, 'tf': 1e-3, 'steps': 4, 'frozen': frozen, 'nomut': None, 'mig': mig, 'units': (0, min(chunk, 9)),
+                              'varying': True})
         for steps in (1, 7):
             for funcs in (False, True):
                 for gk in gks:
